@@ -516,4 +516,4 @@ KNOWN_PREDICATES = {}
 
 # coverage-guided second driver (atheris / libFuzzer through Hypothesis' fuzz_one_input) for the core clauses: (clause, quick runs, thorough runs)
 from harness.covfuzz import cov_clauses  # noqa: E402
-CLAUSES += cov_clauses('C19', CLAUSES, [('args_intact', 3000, 60000)])
+CLAUSES += cov_clauses('C19', CLAUSES, [('args_intact', 3000, 20000)])
